@@ -563,7 +563,7 @@ pub fn run(ctx: &Ctx) -> Report {
     let mut rep = Report::new(ID, "exploration", ctx);
     rep.rule = "(a) generated record ASTs (class/method/field/sourceFile/padded key-value headers; identifier alphabet incl. $ < > - [ ] digits, 2/3/4-byte UTF-8, long names; numbers 0..2^40; every combination of optional parts) printed canonically with terminators none/LF/CRLF/LFLF/CR, parsed alone (try_parse) and embedded between other lines (iter); expected record computed from the AST; plus one documented single violation per case (arrow missing/unspaced/half-spaced, class colon missing, indent 0/2/3/5/tab, start without end, return type missing) which must be an Err carrying the line. (b) bounded-exhaustive slot product indent x range x type x name x args x original-lines x arrow x obfuscated x terminator (+ class and header products): 0 bad slots => exact record, exactly 1 => Err, >=2 => totality only. (c) bounded-exhaustive: all strings of <=6 (quick) / <=7 (thorough) tokens over a 12-token alphabet against a strict hand-written recogniser of the documented grammar (recognised => exact record; every Err carries its line). (d) every line of the corpus files against the recogniser. evaluations = parse calls. Non-trivial = distinct well-formed lines with >=1 optional part / recognised well-formed lines, plus distinct single-violation lines.".into();
     rep.assumptions = vec!["the recogniser is narrower than the parser: lines it does not classify are only checked for totality".into(), "error lines are compared up to their terminator".into()];
-    let n = ctx.cases(200_000, 3_000_000);
+    let n = ctx.cases(200_000, 9_000_000);
     rep.run_stage("lines", line_case, n, check_line_case);
     let slots = slot_product();
     rep.run_enum("slots", &slots, check_slot);
